@@ -241,6 +241,8 @@ func checkC09(e *Env) {
 			e.Violate(&Violation{What: "accepted word count with a source that works during the call: " + why, Ops: c.ops[:c.i+1], Observed: c.res, Detail: historyNote})
 		}
 	})
+	// the concurrent flavour of this monitor (C12 is the full treatment)
+	concCalls := e.concurrentSmoke(drv, "C09", e.sizeRulePool("C09"), e.pick(4, 16), e.pick(200, 1000), e.smokeSizeRule())
 	var al []int
 	for l := range acceptedLens {
 		al = append(al, l)
@@ -255,9 +257,10 @@ func checkC09(e *Env) {
 		fatalInconclusive("C09: accepted sets are %v and %v", al, ac)
 	}
 	e.WriteEvidence("exploration", map[string]any{
-		"evaluations":            stats.Ops,
-		"distinct_nontrivial":    dist.Len(),
-		"calls_inside_histories": histCalls,
+		"evaluations":                      stats.Ops,
+		"distinct_nontrivial":              dist.Len(),
+		"calls_inside_histories":           histCalls,
+		"calls_repeated_under_concurrency": concCalls,
 		"calls_on_a_source_that_fails_transiently_and_stays_installed": transientCalls,
 		"rule":                     "cases: NewMnemonicByEntropy with nil and every slice length 0..2048 (thorough 0..8192), lengths congruent to valid ones modulo 2^8 and 2^16, and sizes up to 1 MiB (thorough 16 MiB) over supported and unsupported languages; NewMnemonic with every int in [-1500,1500] (thorough [-20000,20000]), windows of +-30 around MinInt64, MinInt32, +-2^31, MaxInt32, 2^32, 2^62, MaxInt64, and values congruent to valid counts modulo 2^8/2^16/2^32 (truncation mutants), each with a working scripted source, a failing scripted source and the default source (observed through the crypto/rand interposer); non-trivial = every case (the required outcome is fully determined); distinct by (function, size or count, language, source)",
 		"samples":                  smp.List(),
